@@ -642,7 +642,71 @@ func (g *gen) all() []input {
 		g.e.Rnd.Read(l)
 		value("KBase64", "random", vl(l), oldB)
 	}
+	g.histories()
 	return g.out
+}
+
+// a value of the type t (codec or SQL kind)
+func (g *gen) valueFor(t string) val {
+	switch t {
+	case "JI64", "JStamp", "JDur", "XHex:s:16", "XHex:s:32", "KStamp", "KSqlTime2Unix":
+		return vz(g.randI64())
+	case "JU64", "XHex:u:16", "XHex:u:32":
+		return vu(g.randU64())
+	case "JUnixTime", "KUnix2Time":
+		return val{K: 't', S: g.randI64(), N: int64(g.intn(1000000000))}
+	case "JNanoTime", "KNano2Time":
+		return vt(time.Unix(0, g.randI64()))
+	}
+	l := make([]byte, g.intn(10))
+	for j := range l {
+		l[j] = byte([]int{0, 9, 10, 99, 100, 255, g.intn(256), g.intn(256), g.intn(256)}[g.intn(9)])
+	}
+	return vl(l)
+}
+func entriesOf(t string) []string {
+	switch {
+	case t == "JByte":
+		return append([]string{"ToJS", "ToJS", "ToString"}, jsonEntries...)
+	case jtypes[t] != nil:
+		return jsonEntries
+	case strings.HasPrefix(t, "XHex"):
+		return []string{"format"}
+	}
+	return []string{"Value"}
+}
+
+// encode many, keep, encode more, decode at the end - sequentially and from several goroutines at once
+func (g *gen) histories() {
+	types := append(append([]string{}, jorder...), "XHex:s:16", "XHex:u:16", "XHex:s:32", "XHex:u:32", "KUnix2Time", "KNano2Time", "KStamp", "KSqlTime2Unix", "KBase64")
+	for _, t := range types {
+		es := entriesOf(t)
+		quick := 4
+		if t == "JByte" {
+			quick = 14
+		}
+		for i, n := 0, g.vol("hist", t, quick); i < n; i++ {
+			var steps []hstep
+			for k, nk := 0, 2+g.intn(7); k < nk; k++ {
+				steps = append(steps, hstep{E: g.pick(es), V: toJV(g.valueFor(t)), Keep: true})
+			}
+			for k, nk := 0, 1+g.intn(4); k < nk; k++ {
+				steps = append(steps, hstep{E: g.pick(es), V: toJV(g.valueFor(t))})
+			}
+			g.out = append(g.out, input{Op: "hist", T: t, Hist: steps, Class: "sequential"})
+		}
+		quickC := 1
+		if t == "JByte" {
+			quickC = 4
+		}
+		for i, n := 0, g.vol("conc", t, quickC); i < n; i++ {
+			var steps []hstep
+			for k, nk := 0, 4+g.intn(5); k < nk; k++ {
+				steps = append(steps, hstep{E: g.pick(es), V: toJV(g.valueFor(t)), Keep: true, G: k + 1})
+			}
+			g.out = append(g.out, input{Op: "conc", T: t, Hist: steps, Loops: 200, Class: "concurrent"})
+		}
+	}
 }
 
 var _ = vh.CoqBool
